@@ -1002,11 +1002,15 @@ def normalize(repo: Repo, ci: Optional[ClassInfo], fn: ast.FunctionDef, sf: Opti
     """flatten, then unroll (and, on request, expand attribute-chain aliases): the form in which rules read a function."""
     out = unroll(flatten(repo, ci, fn, sf, **kw), repo, ci, sf)
     if aliases:
+        changed = False
         for _ in range(3):          # project = self.object; modules = project.modules
             nxt = expand_aliases(out)
             if ast.dump(nxt) == ast.dump(out):
                 break
             out = nxt
+            changed = True
+        if changed:
+            out = unroll(out, repo, ci, sf)      # `fields = self._FIELDS; for f in fields` now iterates the constant itself
     return out
 
 
